@@ -46,13 +46,13 @@ def jsonable(x):
         return repr(x)
 
 
-def fresh_truth(text, name, how, hashseed="0", extra=None):
+def fresh_truth(text, name, how, hashseed="0", extra=None, init_text=""):
     """Version of `name` as a fresh interpreter computes it for module text `text`."""
     d = tempfile.mkdtemp(prefix="verif_truth_")
     try:
         os.makedirs(os.path.join(d, "src", "vzpkg"))
         with open(os.path.join(d, "src", "vzpkg", "__init__.py"), "w") as f:
-            f.write("")
+            f.write(init_text or "")
         with open(os.path.join(d, "src", "vzpkg", "mod.py"), "w") as f:
             f.write(text)
         spec = {"src_dir": os.path.join(d, "src"), "store_dir": os.path.join(d, "store"),
@@ -102,8 +102,10 @@ def main():
                 sys.modules["vzpkg.twin"] = tw
                 ns = tw.__dict__
                 exec(compile(op["twin_text"], "<twin>", "exec"), ns)
+                arg = op.get("arg", 1)
+                ev["passed"] = [op["fnarg"]] if op.get("fnarg") else []
                 try:
-                    ev["twin"] = jsonable(ns[op["name"]](1))
+                    ev["twin"] = jsonable(ns[op["name"]](arg, fnarg=ns[op["fnarg"]]) if op.get("fnarg") else ns[op["name"]](arg))
                 except Exception as e:
                     ev["twin"] = ["twin-raised", type(e).__name__]
                 try:
@@ -113,7 +115,7 @@ def main():
                     elif op.get("how") == "partial":
                         target = target.partial()
                     ev["how"] = op.get("how", "plain")
-                    ev["got"] = jsonable(target(1))
+                    ev["got"] = jsonable(target(arg, fnarg=getattr(mod, op["fnarg"])) if op.get("fnarg") else target(arg))
                 except Exception as e:
                     ev["got"] = ["raised", type(e).__name__]
                     ev["exc"] = type(e).__name__
@@ -150,7 +152,12 @@ def main():
                 ev["nlisted"] = len(fn.list_mementos())
                 ev["functions"] = sorted(x.qualified_name for x in m.list_memoized_functions(fn.cluster_name))
             elif kind == "exec_def":
-                exec_in_module(mod, op["src"])
+                if op.get("module"):           # a definition that lives in the package's __init__ module
+                    pk = sys.modules[op["module"]]
+                    exec_in_module(pk, op["src"])
+                    setattr(mod, op["name"], getattr(pk, op["name"]))       # from pkg import name, again
+                else:
+                    exec_in_module(mod, op["src"])
             elif kind == "setvar":
                 setattr(mod, op["name"], op["val"])
             elif kind == "mutate":
@@ -167,11 +174,16 @@ def main():
             elif kind == "reload":
                 with open(os.path.join(spec["src_dir"], "vzpkg", "mod.py"), "w") as f:
                     f.write(op["text"])
+                if op.get("init_text") is not None:
+                    with open(os.path.join(spec["src_dir"], "vzpkg", "__init__.py"), "w") as f:
+                        f.write(op["init_text"])
                 linecache.checkcache()
                 importlib.invalidate_caches()
+                if op.get("init_text"):
+                    importlib.reload(sys.modules["vzpkg"])
                 mod = importlib.reload(mod)
             elif kind == "truth":
-                t = fresh_truth(op["text"], op["name"], op.get("how", "plain"))
+                t = fresh_truth(op["text"], op["name"], op.get("how", "plain"), init_text=op.get("init_text", ""))
                 ev["ver"], ev["exc"] = t["ver"], t["exc"]
             else:
                 ev["exc"] = "unknown op"
